@@ -263,23 +263,23 @@ impl<'a, R: RealNumberInternalTrait> Interpreter<'a, R> {
         mut args: ArgVec<R>,
         env: &Rc<Environment<R>>,
     ) -> Result<Value<R>> {
-        let formals = initial_procedure.get_parameters();
-        // let args = args.into_iter();
-        // formals.iter_to_last(|formal| args.next)
-        let (fixed_len, has_variadic) = formals.len();
-        if args.len() < fixed_len || (args.len() > fixed_len && !has_variadic) {
-            return error!(LogicError::ArgumentMissMatch(
-                formals.clone(),
-                args.iter().join(" ")
-            ));
-        }
         let mut current_procedure = None;
         loop {
-            match if current_procedure.is_none() {
+            let procedure = if current_procedure.is_none() {
                 initial_procedure
             } else {
                 current_procedure.as_ref().unwrap()
-            } {
+            };
+            // checked for every procedure the loop applies, tail-called ones included
+            let formals = procedure.get_parameters();
+            let (fixed_len, has_variadic) = formals.len();
+            if args.len() < fixed_len || (args.len() > fixed_len && !has_variadic) {
+                return error!(LogicError::ArgumentMissMatch(
+                    formals.clone(),
+                    args.iter().join(" ")
+                ));
+            }
+            match procedure {
                 Procedure::Builtin(BuiltinProcedure { body, .. }) => {
                     break body.apply(args, env);
                 }
